@@ -339,3 +339,48 @@ void h_f_inner_serial(void) { const V *x, *y; size_t n; f_inner_serial(x, n, y);
     not_decided=['the parallel (per-thread) variant and std::accumulate of the partial sums', 'that the compensated sum is close to the exact sum (floating point)'],
 )
 UNITS += [inner_product]
+
+# ---------------------------------------------------------------- inner_product, parallel: the body each thread executes
+IPP_LOOP = '''
+__CPROVER_assigns(i, s, c)
+__CPROVER_loop_invariant(lo <= i && i <= hi && s == g_s[i] && c == g_c[i])
+__CPROVER_decreases(hi - i)
+'''
+inner_product_par = Unit(
+    name='builtin_inner_product_parallel_region', props=['C07', 'C09', 'C10'],
+    functions=['backend::inner_product_impl<Vec1,Vec2>::parallel -- the omp parallel region (per-thread body)'],
+    desc='per-thread body of the parallel inner product: for an arbitrary thread id and an arbitrary chunk [lo,hi) of the iteration space, sum[tid] is the Kahan recurrence over math::inner_product(x[i], y[i]) (x first, y second) on that chunk; only sum[tid] is written',
+    cuts={'body': Cut(SRC, r'const int tid = omp_get_thread_num\(\);', kind='region', end=r'sum\[tid\] = s;', end_inclusive=True,
+                      rules=[Rule(r'omp_get_thread_num\(\)', 'tid_in', 1, why='R-omp thread id is a parameter'),
+                             Rule(r'\breturn_type\b', 'V', '+', why='return_type is a value token'),
+                             Rule(r'for\(ptrdiff_t i = 0; i < \(\(ptrdiff_t\)\(n\)\); \+\+i\)', 'for(ptrdiff_t i = lo; i < hi; ++i)', 1,
+                                  why='R-omp-for: "#pragma omp for" gives the thread a chunk [lo,hi) of [0,n)'),
+                             Rule(r'(V d = )', r'KAHAN_STEP(i); \1', 1, why='pointwise instantiation of the recurrence that defines the ghost sequences')],
+                      uf=[UF(r'V [dt] = (?P<e>[^;]+);', 2), UF(r'\bc = (?P<e>[^;]+);', 2)],
+                      loops=[Loop(r'for\(ptrdiff_t i = 0;', IPP_LOOP, prefix=True)])},
+    template=HDR + r'''
+const V *g_s, *g_c;
+#define KAHAN_D(i) UF_SUB(math_inner_product(x[i], y[i]), g_c[i])
+#define KAHAN_STEP(i) __CPROVER_assume(g_s[(i) + 1] == UF_ADD(g_s[i], KAHAN_D(i)) && g_c[(i) + 1] == UF_SUB(UF_SUB(g_s[(i) + 1], g_s[i]), KAHAN_D(i)))
+int g_other; V g_other_val;   /* ghost: some other thread's slot and its content */
+void f_inner_region(const V *x, size_t n, const V *y, V *sum, int nt, int tid_in, ptrdiff_t lo, ptrdiff_t hi)
+__CPROVER_requires(n <= NMAX / 16 && 0 <= lo && lo <= hi && hi <= (ptrdiff_t)n && 0 <= tid_in && tid_in < nt && nt <= 1024)
+__CPROVER_requires(__CPROVER_is_fresh(x, n * sizeof(V)) && __CPROVER_is_fresh(y, n * sizeof(V)) && __CPROVER_is_fresh(sum, nt * sizeof(V)))
+__CPROVER_requires(__CPROVER_is_fresh(g_s, (n + 1) * sizeof(V)) && __CPROVER_is_fresh(g_c, (n + 1) * sizeof(V)))
+__CPROVER_requires(g_s[lo] == MATH_zero(V) && g_c[lo] == MATH_zero(V))
+__CPROVER_requires(0 <= g_other && g_other < nt && g_other != tid_in && sum[g_other] == g_other_val)
+__CPROVER_assigns(__CPROVER_object_whole(sum))
+__CPROVER_ensures(sum[tid_in] == g_s[hi])
+/* C09: a thread touches no other thread's partial sum */
+__CPROVER_ensures(sum[g_other] == g_other_val)
+{
+/*@CUT:body@*/
+}
+void h_f_inner_region(void) { const V *x, *y; V *sum; size_t n; int nt, tid; ptrdiff_t lo, hi; f_inner_region(x, n, y, sum, nt, tid, lo, hi); }
+''',
+    enforce='f_inner_region', mode='inductive', timeout=300,
+    assumptions=A_ASSUME + ['A-omp-for: the OpenMP runtime gives each thread id in [0,nt) a chunk of the iteration space, the chunks partition [0,n), and the region runs once per thread id',
+                            'A-def: the ghost Kahan sequences are defined by recurrence, instantiated at the iteration that uses them'],
+    not_decided=['initialisation of the partial sums and std::accumulate over them (serial prologue / epilogue of parallel())'],
+)
+UNITS += [inner_product_par]
